@@ -432,6 +432,87 @@ def Header.new (k : CtorKind) (w h d : Nat) (f : Format) : Option Header :=
   | some dxgi => some (.dx10 (Dx10Header.new k w h d dxgi))
   | none => f.toDx9PixelFormat.map fun p => .dx9 (Dx9Header.new k w h d p)
 
+/-! ### Builder methods of `Dx9Header` / `Dx10Header` (the struct-level setters) -/
+
+/-- the bits `bitflags` knows of `Caps2` (`!x` truncates to them) -/
+def CAPS2_KNOWN : Nat := CAPS2_CUBE_MAP ||| CAPS2_ALL_FACES ||| CAPS2_VOLUME
+
+inductive StructOp where
+  /-- `with_size(Size)` of both structs: depth becomes `None` -/
+  | withSize (w h : Nat)
+  /-- `with_dimensions(w, h, depth)` of both structs -/
+  | withDimensions (w h : Nat) (d : Option Nat)
+  /-- `with_mipmap_count(NonZeroU32)` of both structs -/
+  | withMipmapCount (m : Nat)
+  /-- `Dx9Header::with_cube_map_faces(CubeMapFaces)`; the argument is the `u8` behind the flags -/
+  | withCubeMapFaces (faces : Nat)
+  /-- `Dx9Header::with_pixel_format` -/
+  | withPixelFormat (p : Dx9PixelFormat)
+  /-- `Dx10Header::with_dxgi_format`: also re-picks the alpha mode -/
+  | withDxgiFormat (c : Nat)
+  /-- `Dx10Header::with_resource_dimension` -/
+  | withResourceDimension (r : ResDim)
+  /-- `Dx10Header::with_misc_flags` -/
+  | withMiscFlags (m : Nat)
+  /-- `Dx10Header::with_array_size` -/
+  | withArraySize (a : Nat)
+  /-- `Dx10Header::with_alpha_mode` -/
+  | withAlphaMode (a : AlphaMode)
+deriving DecidableEq, Repr, Inhabited
+
+/-- the arguments are what the Rust types can hold (`u32`, `NonZeroU32`, `u8`, a valid `DxgiFormat`, a pixel
+format that is not the `DX10` marker) -/
+def StructOp.InRange : StructOp → Prop
+  | .withSize w h => w < U32 ∧ h < U32
+  | .withDimensions w h d => w < U32 ∧ h < U32 ∧ optLt d U32
+  | .withMipmapCount m => 1 ≤ m ∧ m < U32
+  | .withCubeMapFaces f => f < 256
+  | .withPixelFormat p => p.WF
+  | .withDxgiFormat c => dxgiValid c = true
+  | .withResourceDimension _ => True
+  | .withMiscFlags m => m < U32
+  | .withArraySize a => a < U32
+  | .withAlphaMode _ => True
+
+instance (op : StructOp) : Decidable op.InRange := by
+  cases op <;> unfold StructOp.InRange <;> exact inferInstance
+
+/-- one setter of `Dx9Header`; `none` = the struct has no such method -/
+def Dx9Header.applyStructOp (x : Dx9Header) : StructOp → Option Dx9Header
+  | .withSize w h => some { x with width := w, height := h, depth := none }
+  | .withDimensions w h d => some { x with width := w, height := h, depth := d }
+  | .withMipmapCount m => some { x with mipmapCount := m }
+  | .withCubeMapFaces f =>
+    -- `(self.caps2 & !Caps2::CUBE_MAP_ALL_FACES) | Caps2::CUBE_MAP | Caps2::from(faces)`; `!` keeps known bits only
+    some { x with caps2 := (x.caps2 &&& (CAPS2_KNOWN - CAPS2_ALL_FACES)) ||| CAPS2_CUBE_MAP ||| ((f % 64) <<< 10) }
+  | .withPixelFormat p => some { x with pixelFormat := p }
+  | _ => none
+
+/-- one setter of `Dx10Header`; `none` = the struct has no such method -/
+def Dx10Header.applyStructOp (x : Dx10Header) : StructOp → Option Dx10Header
+  | .withSize w h => some { x with width := w, height := h, depth := none }
+  | .withDimensions w h d => some { x with width := w, height := h, depth := d }
+  | .withMipmapCount m => some { x with mipmapCount := m }
+  | .withDxgiFormat c => some { x with dxgiFormat := c, alphaMode := pickAlphaMode c }
+  | .withResourceDimension r => some { x with resourceDimension := r }
+  | .withMiscFlags m => some { x with miscFlag := m }
+  | .withArraySize a => some { x with arraySize := a }
+  | .withAlphaMode a => some { x with alphaMode := a }
+  | _ => none
+
+def Header.applyStructOp (h : Header) (op : StructOp) : Option Header :=
+  match h with
+  | .dx9 x => (x.applyStructOp op).map .dx9
+  | .dx10 x => (x.applyStructOp op).map .dx10
+
+/-- a chain of struct-level setters -/
+def Header.applyStructOps (h : Header) : List StructOp → Option Header
+  | [] => some h
+  | op :: ops =>
+    match h.applyStructOp op with
+    | none => none
+    | some h' => h'.applyStructOps ops
+
 /-! ### DX9 <-> DX10 -/
 
 /-- `Dx9Header::alpha_mode` -/
